@@ -38,7 +38,7 @@ seeded changes and which check catches which in §11.
      rewritten only by a fixed, logged list of token-level rules (§2.2), with contracts merged in from side-car files in
      `/verif/contracts/`. 22 units, ≈ 80 extracted items (functions, closures, types), ≈ 560 verified functions and lemmas (Verus's "verified"
      count) carrying ≈ 1030 contract clauses, 1–13 s per unit.
-  2. **Kani, loop-free / full domain** (complete): `ch_width(c) <= c.len_utf8()` for every `char`, both feature sets (K1); the float-exactness facts C05's one-line argument uses, for every pair of `usize` operands (K3).
+  2. **Kani, loop-free / full domain** (complete): `ch_width(c) <= c.len_utf8()` for every `char`, both feature sets (K1); the float-exactness facts C05's one-line argument uses, for every pair of `usize` operands (K3); `'\\r'.is_whitespace()` on the real std function, an axiom of U9's C18 theorem (K5).
   3. **Kani, bounded**: `wrap_first_fit` with bit-precise IEEE-754 floats, 3 fragments (K2, thorough tier of C07) — labelled *bounded*.
   4. **Bounded exhaustive contract checking (BEC)**: the same contracts in executable form, evaluated on the real crate
      (linked natively from `/repo`, both feature sets) for *every* input of a stated small scope plus seeded random
